@@ -4,7 +4,7 @@
    A [forest] is a well-formed profile-event stream (CPython's event discipline); [events] flattens it. *)
 From Coq Require Import ZArith NArith List Bool.
 Import ListNotations.
-Require Import UV.C19.Model UV.C19.Proofs UV.C19.SymFile UV.C19.SymFileProofs.
+Require Import UV.C19.Model UV.C19.Proofs UV.C19.SymFile UV.C19.SymFileProofs UV.C19.Lazy UV.C19.LazyProofs.
 Local Open Scope Z_scope.
 
 (* Refinement: for every configuration of the current code (filters, libcall mode), every call
@@ -242,3 +242,28 @@ Example C19_symfile_example :
   length (join_lines (header_lines 2)) = 48%nat.
 Proof. exact symfile_example. Qed.
 Print Assumptions C19_symfile_example.
+
+(* os._exit (or a kill) inside the open calls of [f] - the calls with l_exc = true, the rightmost
+   path ([open_ok]).  libmcount writes the ENTRY of a call lazily, when a call below it completes
+   ([lz_run]: record_trace_data).  The data file then holds exactly the records of the selected
+   forest in which every open call without a completed traced call below it is dropped
+   ([trim_open]): completed calls have ENTRY and EXIT, the remaining open calls an ENTRY only, all
+   properly nested - for every configuration of the current code. *)
+Theorem C19_os_exit_records : forall c f, c_fixed c = true -> open_ok f = true ->
+  lz_out (lz_run lz0 (snd (run c st0 (events_open f)))) = open_records 0 (trim_open (select c 0 0 0 f)).
+Proof. exact os_exit_records. Qed.
+Print Assumptions C19_os_exit_records.
+
+(* the writer alone, on any hook-call stream of that shape *)
+Theorem C19_lazy_records : forall f, open_ok f = true ->
+  lz_out (lz_run lz0 (hooks_open f)) = open_records 0 (trim_open f).
+Proof. exact lazy_records. Qed.
+Print Assumptions C19_lazy_records.
+
+Example C19_os_exit_example :
+  open_ok ex_open = true /\
+  lz_out (lz_run lz0 (snd (run (cfg_plain LSingle) st0 (events_open ex_open)))) =
+    [REntry 0 (l_sym (py nm_a)); REntry 1 (l_sym (py nm_b)); RExit 1 (l_sym (py nm_b))] /\
+  lz_out (lz_run lz0 (snd (run (mkcfg (Some [33 :: nm_b]%N) LSingle true) st0 (events_open ex_open)))) = [].
+Proof. exact os_exit_example. Qed.
+Print Assumptions C19_os_exit_example.
